@@ -33,7 +33,9 @@ class ListWrapper(RandomSource):
 
     def random_float(self, min: float, max: float) -> float:
         k = self.randint(1, sys.maxsize)
-        return 1 * (max - min) / k + min
+        v = 1 * (max - min) / k + min
+        # (min + (max - min) can round above max)
+        return max if v > max else v
 
 
 class GrammaticalEvolutionRepresentation(
